@@ -66,7 +66,62 @@ pub fn oracles(report: &mut Report, case: &Value, sc: &Scenario, real: &RunResul
     }
 }
 
+/// Directed: a REAL storage failure below the transport layer — the archive lives on a 3 MiB tmpfs and the
+/// source holds more incompressible data than fits, so some write hits ENOSPC part way through (the injected
+/// faults of the sweeps are raised above the local transport and never exercise its own error handling).
+/// Real code + the property's oracles on the raw archive.  Needs root (mount); skipped with a note otherwise.
+fn enospc(seed: u64, report: &mut Report) {
+    let work = tempfile::tempdir().unwrap();
+    let mnt = work.path().join("mnt");
+    std::fs::create_dir(&mnt).unwrap();
+    let mounted = std::process::Command::new("mount").args(["-t", "tmpfs", "-o", "size=3m", "tmpfs"]).arg(&mnt).status().map(|s| s.success()).unwrap_or(false);
+    if !mounted {
+        report.hit("enospc:mount-unavailable");
+        report.notes.push("could not mount a small tmpfs (not root?): the ENOSPC scenario is skipped".into());
+        return;
+    }
+    let arch = mnt.join("arch");
+    let src = work.path().join("src");
+    std::fs::create_dir(&src).unwrap();
+    let mut x = seed | 1;
+    let mut noise = |n: usize| -> Vec<u8> { (0..n).map(|_| { x ^= x << 13; x ^= x >> 7; x ^= x << 17; (x >> 24) as u8 }).collect() };
+    let mib = 1usize << 20;
+    let files: Vec<(String, Vec<u8>)> = vec![("a-small".into(), b"hello".to_vec()), ("b-noise".into(), noise(mib + mib / 2)), ("c-noise".into(), noise(mib + mib / 5)), ("d-small".into(), b"after".to_vec()), ("e-noise".into(), noise(mib)), ("f-noise".into(), noise(2 * mib + mib / 2))];
+    // (each of b, c, e is written as ONE chunk of at most 2 MiB — tokio's per-call limit —, f as two: a failure
+    // can hit an only chunk, a first chunk or a last chunk)
+    for (n, b) in &files {
+        std::fs::write(src.join(n), b).unwrap();
+    }
+    create_archive(&arch);
+    let p = BackupParams { max_entries_per_hunk: 100_000, max_block_size: 20 << 20, small_file_cap: 16, owner: true, exclude: vec![] };
+    let r = real_backup(&arch, &src, &p, IceptConfig::default());
+    let case = json!({"directed": "enospc", "archive_on": "tmpfs size=3m", "files": files.iter().map(|(n, b)| json!({"name": n, "len": b.len()})).collect::<Vec<_>>(), "result": trunc(&r.result)});
+    report.case("enospc", true);
+    report.hit("directed:enospc");
+    let clean = r.result.starts_with("result ok") && r.result.contains(" errors=0") && !r.events.iter().any(|e| e.starts_with("event error"));
+    report.hit(if clean { "enospc:backup-reported-clean" } else { "enospc:backup-reported-errors" });
+    if r.result.starts_with("result panic") {
+        report.oracle_fail("fault:panic", case.clone(), "a full disk crashed the backup", json!(trunc(&r.result)));
+    }
+    // whatever was recorded must read back to exactly the source bytes, from blocks that decode
+    let expect: BTreeMap<String, Vec<u8>> = files.iter().map(|(n, b)| (format!("/{n}"), b.clone())).collect();
+    let found = crate::c13::raw_reader(&arch, 0, &expect);
+    for (sig, what) in &found {
+        let sig2 = match sig.as_str() { "format:address-outside-block" | "format:block-undecodable" => "fault:dangling-reference", "format:content-differs" => "fault:wrong-content", other => other };
+        report.oracle_fail(sig2, case.clone(), "after a backup that hit a full disk, something recorded in the archive does not read back to the source's bytes", what.clone());
+    }
+    if clean && found.is_empty() {
+        // a clean success must have everything: the disk was too small for that, so a clean result is itself suspect
+        let recorded: usize = std::fs::read(arch.join("b0000/i/00000/000000000")).ok().and_then(|b| crate::absarch::decode_hunk(&b)).map(|es| es.len()).unwrap_or(0);
+        if recorded < files.len() + 1 {
+            report.oracle_fail("fault:false-success", case.clone(), "the backup reported complete success on a disk that could not hold the source, and entries are missing", json!({"recorded_entries": recorded}));
+        }
+    }
+    let _ = std::process::Command::new("umount").arg(&mnt).status();
+}
+
 pub fn run(tier: &str, seed: u64, report: &mut Report) {
+    enospc(seed, report);
     let thorough = tier == "thorough";
     let n_scen = if thorough { 40 } else { 4 };
     for sidx in 0..n_scen {
